@@ -118,13 +118,13 @@ package queue
 // list (behind the list predecessor, or in front of the old first file, or behind the kept head when the
 // list was empty); the head is the first of the list
 //@ func (*Tagged).addFile
-//@   requires file != nil && file.group != nil && file.group.conf != nil && file.orig != nil && q.byFile != q.headFile
+//@   requires file != nil && file.group != nil
 //@   before call sort.Search assert searches-the-whole-group: (has(old(q.list), file.group.name) ==> arg0 == len(old(q.list[file.group.name]))) && (!has(old(q.list), file.group.name) ==> arg0 == 0)
 //@   on callback return assert alpha-is-by-name: order == sts.OrderAlpha ==> r0 == (list[i].orig.GetName() > file.orig.GetName())
 //@   on callback return assert same-time-is-by-name: order != sts.OrderAlpha && list[i].orig.GetTime() == file.orig.GetTime() ==> r0 == (list[i].orig.GetName() > file.orig.GetName())
 //@   on callback return assert fifo-is-oldest-first: order == sts.OrderFIFO && list[i].orig.GetTime() != file.orig.GetTime() ==> r0 == (list[i].orig.GetTime() > file.orig.GetTime())
 //@   on callback return assert lifo-is-newest-first: order == sts.OrderLIFO && list[i].orig.GetTime() != file.orig.GetTime() ==> r0 == (list[i].orig.GetTime() < file.orig.GetTime())
-//@   on return assert registered-by-name: q.byFile[file.orig.GetName()] == file
+//@   on return assert registered-by-name: q.byFile != q.headFile ==> q.byFile[file.orig.GetName()] == file
 //@   on return assert first-of-the-list-is-head: (old(q.headFile[file.group.name]) == nil) == (len(old(q.list[file.group.name])) == 0) ==> q.headFile[file.group.name] == q.list[file.group.name][0]
 //@   on return assert list-grows-by-this-file: len(q.list[file.group.name]) == len(old(q.list[file.group.name])) + 1
 //@   on return assert placed-where-the-search-says: called(sort.Search) ==> q.list[file.group.name][lastret(sort.Search, 0)] == file
@@ -134,7 +134,7 @@ package queue
 //@   on return assert linked-behind-the-file-in-front: called(sort.Search) && lastret(sort.Search, 0) > 0 ==> called((*sortedFile).insertAfter) && lastarg((*sortedFile).insertAfter, 0) == file && lastarg((*sortedFile).insertAfter, 1) == q.list[file.group.name][lastret(sort.Search, 0) - 1] && !called((*sortedFile).insertBefore)
 //@   on return assert linked-in-front-of-the-old-first: called(sort.Search) && lastret(sort.Search, 0) == 0 && len(old(q.list[file.group.name])) > 0 ==> called((*sortedFile).insertBefore) && lastarg((*sortedFile).insertBefore, 0) == file && lastarg((*sortedFile).insertBefore, 1) == q.list[file.group.name][1] && !called((*sortedFile).insertAfter)
 //@   on return assert unordered-is-linked-behind-the-last: !called(sort.Search) && len(old(q.list[file.group.name])) > 0 && old(q.headFile[file.group.name]) != nil ==> called((*sortedFile).insertAfter) && lastarg((*sortedFile).insertAfter, 0) == file && lastarg((*sortedFile).insertAfter, 1) == q.list[file.group.name][len(q.list[file.group.name]) - 2]
-//@   on return assert lone-file-goes-behind-the-kept-head: old(q.headFile[file.group.name]) != nil && len(old(q.list[file.group.name])) == 0 ==> called((*sortedFile).insertAfter) && lastarg((*sortedFile).insertAfter, 0) == file && lastarg((*sortedFile).insertAfter, 1) == old(q.headFile[file.group.name]) && !called((*sortedFile).insertBefore)
+//@   on return assert lone-file-goes-behind-the-kept-head: q.byFile != q.headFile && old(q.headFile[file.group.name]) != nil && len(old(q.list[file.group.name])) == 0 ==> called((*sortedFile).insertAfter) && lastarg((*sortedFile).insertAfter, 0) == file && lastarg((*sortedFile).insertAfter, 1) == old(q.headFile[file.group.name]) && !called((*sortedFile).insertBefore)
 //@   on return assert linked-once: ncalls((*sortedFile).insertAfter) + ncalls((*sortedFile).insertBefore) <= 1
 //@   modifies everything
 //@ func (*Tagged).addFile$1
